@@ -43,6 +43,49 @@ type c11Variant struct {
 	ws      []kv
 	routes  map[string]bool
 	wrote   int
+	kept    [c11Slots]*c11Kept
+}
+
+const c11Slots = 4
+
+// c11Kept is a slice returned by Get or by an iterator's Value() that the "contract" keeps WITHOUT
+// copying (zero-copy read), together with a copy of what it held at the time of the read.
+type c11Kept struct {
+	slice     []byte
+	want      []byte
+	origin    int // 0 backend (fresh copy from LevelDB), 1 block-layer buffer, 2 transaction-layer buffer
+	key       string
+	rewritten bool // the key was written again in the buffer the slice points into
+	notLonger bool // ... and the first such write had a non-empty value not longer than the kept one
+}
+
+func (v *c11Variant) noteRewrite(origin int, mk string, newLen int) {
+	for _, k := range v.kept {
+		if k != nil && k.origin == origin && k.key == mk && !k.rewritten {
+			k.rewritten = true
+			k.notLonger = newLen > 0 && newLen <= len(k.slice)
+		}
+	}
+}
+
+func (v *c11Variant) dropKept(origin int) {
+	for i, k := range v.kept {
+		if k != nil && k.origin == origin {
+			v.kept[i] = nil
+		}
+	}
+}
+
+// keptIntact: a slice handed out earlier must still hold what it held when it was read.
+func (w *c11World) keptIntact(v *c11Variant, when string) bool {
+	for i, k := range v.kept {
+		if k != nil && !bytes.Equal(k.slice, k.want) {
+			w.run.Fail("C11", "kept-slice-changed-after-rewrite", "variant %d %s: the slice returned for key %s (slot %d, origin layer %d) held %s when it was read and now holds %s (key rewritten since: %v, with a value not longer: %v)",
+				v.idx, when, short([]byte(k.key)), i, k.origin, short(k.want), short(k.slice), k.rewritten, k.notLonger)
+			return false
+		}
+	}
+	return true
 }
 
 // c11Val: value kind 100 is "b"+"v<id>" (with key "a" it flattens like key "ab" with value "v<id>").
@@ -138,6 +181,9 @@ func (w *c11World) finish() bool {
 		run.Fail("C11", "writeset-not-net-effect", "variant %d: write set %s, net effect of its history %s", v.idx, kvString(v.ws), kvString(want))
 		return false
 	}
+	if !w.keptIntact(v, "at the end of the block") {
+		return false
+	}
 	run.Logf("variant %d done: %d net writes hash %x ws %x", v.idx, len(v.net), v.hash[:6], kvDigest(v.ws))
 	w.variants = append(w.variants, v)
 	return true
@@ -198,10 +244,12 @@ func c11Steps(w *c11World) {
 				v.ov.Put(k, val)
 				scribble(val)
 				v.net[mk] = mv
+				v.noteRewrite(1, mk, len(mv))
 				run.Logf("v%d put %s=%s", v.idx, short([]byte(mk)), short(mv))
 			} else {
 				v.ov.Delete(k)
 				v.net[mk] = nil
+				v.noteRewrite(1, mk, 0)
 				run.Logf("v%d del %s", v.idx, short([]byte(mk)))
 			}
 			scribble(k)
@@ -218,6 +266,7 @@ func c11Steps(w *c11World) {
 			}
 			v.tx = map[string][]byte{}
 			v.inTx = true
+			v.dropKept(2) // Reset re-uses the buffer: slices into it are dead (a fresh CacheDB: dropped as well)
 			run.Logf("v%d tx begin", v.idx)
 		case "tput", "tdel":
 			if v == nil {
@@ -235,6 +284,7 @@ func c11Steps(w *c11World) {
 				v.cache.Delete(k)
 			}
 			scribble(k)
+			v.noteRewrite(2, mk, len(v.tx[mk]))
 			run.Logf("v%d %s %s=%s", v.idx, st.Op, short([]byte(mk)), short(v.tx[mk]))
 		case "tcommit":
 			if v == nil {
@@ -243,6 +293,7 @@ func c11Steps(w *c11World) {
 			v.cache.Commit()
 			for _, k := range sortedKeys(v.tx) {
 				v.net[k] = v.tx[k]
+				v.noteRewrite(1, k, len(v.tx[k]))
 				v.wrote++
 			}
 			if len(v.tx) > 0 {
@@ -260,6 +311,7 @@ func c11Steps(w *c11World) {
 			}
 			v.cache.Reset()
 			v.tx = map[string][]byte{}
+			v.dropKept(2)
 			run.Logf("v%d tx rollback", v.idx)
 		case "get": // reads must not change the write set
 			if v == nil {
@@ -289,6 +341,93 @@ func c11Steps(w *c11World) {
 			}
 			v.routes["reads"] = true
 			run.Logf("v%d tget %s -> %s", v.idx, short(k), short(val))
+		case "keep": // zero-copy read: keep the returned slice itself
+			if v == nil {
+				continue
+			}
+			k := pick(w.tkeys, st.Arg(1))
+			pk := append([]byte{stPrefix}, k...)
+			mk := string(pk)
+			slot := umod(st.Arg(2), c11Slots)
+			route := umod(st.Arg(0), 4)
+			want, origin := w.seeded[mk], 0
+			if x, ok := v.net[mk]; ok {
+				want, origin = x, 1
+			}
+			if x, ok := v.tx[mk]; ok && route%2 == 0 {
+				want, origin = x, 2
+			}
+			var val []byte
+			var err error
+			switch route {
+			case 0:
+				val, err = v.cache.Get(k)
+			case 1:
+				val, err = v.ov.Get(pk)
+			default:
+				var it interface {
+					First() bool
+					Key() []byte
+					Value() []byte
+					Release()
+					Error() error
+				}
+				wantKey := k
+				if route == 2 {
+					it = v.cache.NewIterator(clone(k))
+				} else {
+					it, wantKey = v.ov.NewIterator(clone(pk)), pk
+				}
+				if it.First() && bytes.Equal(it.Key(), wantKey) {
+					val = it.Value()
+				}
+				err = it.Error()
+				it.Release()
+				if origin == 0 {
+					val, want = nil, nil // a value served by the LevelDB iterator is only valid until the iterator moves
+				}
+			}
+			if err != nil || !bytes.Equal(val, want) {
+				run.Fail("C11", "read-through-wrong", "variant %d zero-copy read of %s via route %d = %s,%v want %s", v.idx, short(pk), route, short(val), err, short(want))
+				return
+			}
+			v.routes["reads"] = true
+			v.kept[slot] = nil
+			if len(val) > 0 {
+				v.kept[slot] = &c11Kept{slice: val, want: clone(want), origin: origin, key: mk}
+				run.Probe(fmt.Sprintf("kept_slice_origin_%d", origin))
+			}
+			run.Logf("v%d keep[%d] %s via route %d -> %s (origin %d)", v.idx, slot, short(pk), route, short(val), origin)
+		case "usekept": // "archive the previous record": write the kept slice under another key
+			if v == nil {
+				continue
+			}
+			kp := v.kept[umod(st.Arg(0), c11Slots)]
+			if kp == nil {
+				continue
+			}
+			if kp.rewritten && kp.notLonger {
+				run.Probe("kept_slice_reused_after_rewrite_not_longer")
+			} else if kp.rewritten {
+				run.Probe("kept_slice_reused_after_rewrite_longer_or_empty")
+			}
+			d := pick(w.tkeys, st.Arg(1))
+			mk := string(append([]byte{stPrefix}, d...))
+			if st.Arg(2)%2 == 0 {
+				v.cache.Put(d, kp.slice)
+				v.tx[mk] = clone(kp.want)
+				v.noteRewrite(2, mk, len(kp.want))
+			} else {
+				v.ov.Put([]byte(mk), kp.slice)
+				v.net[mk] = clone(kp.want)
+				v.noteRewrite(1, mk, len(kp.want))
+				v.routes["direct"] = true
+				v.wrote++
+			}
+			run.Logf("v%d usekept %s := value read from %s (%s)", v.idx, short([]byte(mk)), short([]byte(kp.key)), short(kp.want))
+			if st.Arg(3)%2 == 1 && !w.keptIntact(v, "when the kept slice is re-used") {
+				return
+			}
 		case "scan":
 			if v == nil {
 				continue
@@ -396,6 +535,9 @@ type c11Entry struct {
 	tomb bool
 	vk   int64
 	id   int64
+	pair int   // 1: key whose previous value (ovk, oid) is archived under the pair-2 key; 2: the archive key
+	ovk  int64
+	oid  int64
 }
 
 func (e c11Entry) blockIdx() int64 {
@@ -440,6 +582,22 @@ func c11Generate(rng *kernel.RNG, idx int, tier string) *kernel.Plan {
 		} else {
 			base[special] = e
 		}
+	}
+	if rng.Chance(0.6) {
+		// "store the new record, archive the previous one": K gets a new value, D gets K's previous value.
+		// Rendered either as two plain writes or as read(K, slice kept) - rewrite K - write kept slice to D.
+		k := c11Entry{tk: permT[len(permT)-2], pair: 1}
+		switch weighted(rng, []int{35, 35, 15, 15}) {
+		case 0: // equal length
+			k.ovk, k.oid, k.vk, k.id = 4, int64(10+rng.Intn(40)), 4, int64(50+rng.Intn(40))
+		case 1: // shorter
+			k.ovk, k.oid, k.vk, k.id = 7, int64(rng.Intn(50)), 4, int64(rng.Intn(50))
+		case 2: // longer
+			k.ovk, k.oid, k.vk, k.id = 4, int64(rng.Intn(50)), 7, int64(rng.Intn(50))
+		default: // deleted
+			k.ovk, k.oid, k.tomb, k.vk = 7, int64(rng.Intn(50)), true, 4
+		}
+		base = append(base, k, c11Entry{tk: permT[len(permT)-3], pair: 2, vk: k.ovk, id: k.oid})
 	}
 	nvar := 2 + rng.Intn(5)
 	if tier == "thorough" {
@@ -536,10 +694,78 @@ func c11History(rng *kernel.RNG, ents []c11Entry) []kernel.Step {
 			}
 		}
 	}
+	// the archive pair, if this variant still has it intact
+	pk, pd := -1, -1
+	for i, e := range ents {
+		if e.pair == 1 && e.tk >= 0 {
+			pk = i
+		}
+	}
+	for i, e := range ents {
+		if pk >= 0 && e.pair == 2 && !e.tomb && e.tk >= 0 && e.vk == ents[pk].ovk && e.id == ents[pk].oid {
+			pd = i
+		}
+	}
+	archive := pk >= 0 && pd >= 0 && rng.Chance(0.7)
+	done := map[int]bool{}
 	// phase 2: the final write of every key, in a random order, grouped into transactions by mode
 	inTx := false
 	for n, oi := range order {
 		e := ents[oi]
+		if done[oi] {
+			continue
+		}
+		if archive && (oi == pk || oi == pd) {
+			K, D := ents[pk], ents[pd]
+			done[pk], done[pd] = true, true
+			old := c11Entry{tk: K.tk, vk: K.ovk, id: K.oid}
+			slot := int64(rng.Intn(c11Slots))
+			chk := int64(rng.Intn(2))
+			begin := func() { steps = append(steps, kernel.Step{Op: "tx", A: []int64{int64(rng.Intn(2))}}); inTx = true }
+			commit := func() { steps = append(steps, kernel.Step{Op: "tcommit"}); inTx = false }
+			switch rng.Intn(4) {
+			case 0: // all inside one transaction
+				if !inTx {
+					begin()
+				}
+				steps = append(steps, final(old, true), kernel.Step{Op: "keep", A: []int64{int64(rng.Intn(2) * 2), int64(K.tk), slot}})
+				if rng.Chance(0.3) {
+					read()
+				}
+				steps = append(steps, final(K, true), kernel.Step{Op: "usekept", A: []int64{slot, int64(D.tk), 0, chk}})
+			case 1: // directly at the block layer
+				if inTx {
+					commit()
+				}
+				steps = append(steps, final(old, false), kernel.Step{Op: "keep", A: []int64{int64(1 + rng.Intn(2)*2), int64(K.tk), slot}},
+					final(K, false), kernel.Step{Op: "usekept", A: []int64{slot, int64(D.tk), 1, chk}})
+			case 2: // old value committed to the block layer, read there, rewritten by a later transaction's commit
+				if inTx {
+					commit()
+				}
+				begin()
+				steps = append(steps, final(old, true))
+				commit()
+				steps = append(steps, kernel.Step{Op: "keep", A: []int64{int64(1 + rng.Intn(2)*2), int64(K.tk), slot}})
+				begin()
+				steps = append(steps, final(K, true))
+				commit()
+				if rng.Chance(0.5) {
+					steps = append(steps, kernel.Step{Op: "usekept", A: []int64{slot, int64(D.tk), 1, chk}})
+				} else {
+					begin()
+					steps = append(steps, kernel.Step{Op: "usekept", A: []int64{slot, int64(D.tk), 0, chk}})
+					commit()
+				}
+			default: // read from the transaction buffer after its commit, rewritten in the same (un-reset) buffer
+				if !inTx {
+					begin()
+				}
+				steps = append(steps, final(old, true), kernel.Step{Op: "tcommit"}, kernel.Step{Op: "keep", A: []int64{int64(rng.Intn(2) * 2), int64(K.tk), slot}},
+					final(K, true), kernel.Step{Op: "usekept", A: []int64{slot, int64(D.tk), 0, chk}})
+			}
+			continue
+		}
 		viaTx := e.tk >= 0 && (mode == 1 || (mode >= 2 && rng.Chance(0.5)))
 		if rng.Chance(0.2) {
 			if inTx {
@@ -587,13 +813,16 @@ func init() {
 		ID: "C11", Level: "exploration", Engine: engineName,
 		Rule: "case = k-tuple (2-6, thorough 2-8) of write histories, each applied to its own fresh OverlayDB on one of two LevelDBs seeded with equal content; histories of a tuple are renderings of one base net write set (0-9 keys, 25% tombstones) " +
 			"as: direct block-layer writes, writes through 1..n CacheDB transactions (fresh CacheDB or Reset per transaction), mixed routes, random order, redundant earlier overwrites / put-delete-put / delete-put, earlier committed versions, rolled-back junk transactions touching the same keys, interleaved reads and scans; " +
+			"60% of the tuples contain an archive pair (key K gets a new value of equal / shorter / longer length or is deleted, key D gets K's previous value) which 70% of the variants render as a zero-copy read: write K, keep the slice returned by Get or by an iterator's Value() without copying, rewrite K, write the kept slice under D " +
+			"(inside one transaction, directly at the block layer, across a commit to the block layer, or in an un-reset transaction buffer after its commit); kept slices must still hold what they held when read. " +
 			"35% of the non-first variants get one deliberate difference (changed value, dropped key, extra key, live<->tombstone, extra tombstone for a never-written key). The model (map of block-layer writes) classifies every pair; ChangeHash and the write-set listing are evaluated 8 times per variant. " +
 			"evaluations = pairs compared; non-trivial = at least one pair with equal net effect and both direct and transactional routes used; distinct by the classification and digests of all pairs",
 		Real:        []string{"core/store/overlaydb OverlayDB.ChangeHash / GetWriteSet / MemDB", "native/storage CacheDB (Commit/Reset routing)", "core/store/leveldbstore (two equal backends)"},
 		Stub:        []string{"StateStore.AddStateMerkleTreeRoot / replica state roots are observed by E1, not here"},
 		Assumptions: []string{"SHA-256 collision resistance (different byte streams => different digests)", "Go's map iteration order cannot be seeded: each digest/listing is repeated 8 times in-process; a map-order dependence would replay with probability >= 1-2^-7, not exactly", "deleted-then-absent vs never-written is not asserted either way (property text); direction is reported as a probe"},
 		QuickRuns:   2400, ThoroughRuns: 100000, QuickCap: 40, ThoroughCap: 700,
-		RequiredProbes: []string{"equal_pair_via_different_histories", "different_pair_digest_differs", "route_tx", "route_direct", "route_rollback", "route_reads"},
+		RequiredProbes: []string{"equal_pair_via_different_histories", "different_pair_digest_differs", "route_tx", "route_direct", "route_rollback", "route_reads",
+			"kept_slice_reused_after_rewrite_not_longer", "kept_slice_reused_after_rewrite_longer_or_empty", "kept_slice_origin_1", "kept_slice_origin_2"},
 		Generate:       c11Generate,
 		Execute:        c11Execute,
 	})
